@@ -60,7 +60,7 @@ def case_stream(ctx):
         pr = mspec.Probes()
         yield ('witness:' + cls, mk(pr), pr, [(ws, p)])
     # same-shaped within-word expressions with different accepting sets: always, with all their queries
-    for st, pr, qs in mspec.shape_family() + mspec.greedy_family() + mspec.descr_family():
+    for st, pr, qs in mspec.shape_family() + mspec.greedy_family() + mspec.descr_family() + mspec.level_shape_family():
         yield ('targeted', [mspec.normalize_stmt(x) for x in st], pr, list(qs))
     # the targeted family: the pairs of item kinds: a seed-determined third in the quick tier, all otherwise; the others always
     pairs, others = mspec.targeted_family()
